@@ -18,7 +18,7 @@ CONSTANTS OPS,        \* operation names
           MAXLEN,     \* maximal program length (number of actions before the observed call)
           NVER, NGRID \* content versions / direction grids available to the edits
 
-RepActs == {"transpose_df", "transpose_lead", "fortran", "strided", "cast32", "roll1", "roll_seam", "flip", "sortdir",
+RepActs == {"transpose_df", "transpose_lead", "fortran", "strided", "cast32", "bigendian", "roll1", "roll_seam", "flip", "sortdir",
             "chunk_lead", "chunk_freq", "chunk_dir", "chunk_all1"}
 EditActs == {"access", "call_other", "set_efth", "set_dir", "set_freq", "call_unknown", "other_shape"}
 ASSUME REPACTS \subseteq RepActs /\ EDITACTS \subseteq EditActs
@@ -30,7 +30,7 @@ VARIABLES rep,     \* representation record
           frame    \* TRUE as long as no call changed rep or ver
 vars == <<rep, ver, path, obs, frame>>
 
-Rep0 == [dimorder |-> "lead_freq_dir", layout |-> "C", width |-> 64, roll |-> 0, flip |-> FALSE, chunks |-> "none"]
+Rep0 == [dimorder |-> "lead_freq_dir", layout |-> "C", width |-> 64, endian |-> "native", roll |-> 0, flip |-> FALSE, chunks |-> "none"]
 Init == rep = Rep0 /\ ver = [efth |-> 1, grid |-> 1, fgrid |-> 1] /\ path = <<>> /\ obs = <<>> /\ frame = TRUE
 
 Rec(a, x) == [act |-> a, arg |-> x]
@@ -43,6 +43,8 @@ DoRep(a) ==
               [] a = "fortran" -> [rep EXCEPT !.layout = "F"]
               [] a = "strided" -> [rep EXCEPT !.layout = "S"]
               [] a = "cast32" -> [rep EXCEPT !.width = 32]
+              \* byte order is part of the in-memory layout: the same numbers stored most-significant byte first (netCDF3 / XDR readers)
+              [] a = "bigendian" -> [rep EXCEPT !.endian = "big"]
               \* the roll actions store the ASCENDING sequence started one bin later / at the last direction, so they also undo a flip
               [] a = "roll1" -> [rep EXCEPT !.roll = 1, !.flip = FALSE]
               [] a = "roll_seam" -> [rep EXCEPT !.roll = 2, !.flip = FALSE]      \* the 0/360 seam falls between the first two stored directions
